@@ -166,13 +166,39 @@ func cmdC13(args []string) error {
 		must(raw.WriteMagic(c13Magic))
 		settings := &pwr.CompressionSettings{Algorithm: cs.a, Quality: cs.q}
 		must(raw.WriteMessage(&pwr.PatchHeader{Compression: settings}))
+		// a COMPANION stream with the same compression settings whose lifetime overlaps the stream under test (the
+		// differ has the patch wire and the signature wire open at the same time, with one setting): opened before
+		// or after it, fed in between, closed after it. A registered compressor is a process-wide object.
+		var companion *wire.WriteContext
+		var companionBuf bytes.Buffer
+		// (errors of the writing side are behaviour of the code under test: recorded, not fatal to the driver)
+		var werr error
+		note := func(err error) {
+			if err != nil && werr == nil {
+				werr = err
+			}
+		}
+		openCompanion := func() {
+			c, err := pwr.CompressWire(wire.NewWriteContext(&companionBuf), settings)
+			note(err)
+			companion = c
+		}
+		if k%4 == 1 {
+			openCompanion() // opened before the stream under test
+		}
 		wc, err := pwr.CompressWire(raw, settings)
 		if err != nil {
 			return err
 		}
+		if k%4 == 3 {
+			openCompanion() // opened after the stream under test
+		}
 		var shas []string
 		var mlens []int
 		for i, s := range sizes {
+			if companion != nil && i%2 == 0 {
+				note(companion.WriteMessage(&pwr.SyncOp{Type: pwr.SyncOp_DATA, FileIndex: int64(i), Data: bytes.Repeat([]byte{0xc0}, 1+i*37)}))
+			}
 			var data []byte
 			switch rng.Intn(3) {
 			case 0:
@@ -190,9 +216,21 @@ func cmdC13(args []string) error {
 			must(err)
 			mlens = append(mlens, len(b))
 			shas = append(shas, sha(data))
-			must(wc.WriteMessage(msg))
+			note(wc.WriteMessage(msg))
 		}
-		must(wc.Close())
+		note(wc.Close())
+		if companion != nil {
+			note(companion.WriteMessage(&pwr.SyncOp{Type: pwr.SyncOp_HEY_YOU_DID_IT}))
+			note(companion.Close())
+		}
+		if werr != nil {
+			if mlens == nil {
+				mlens = []int{}
+			}
+			w.emit(&wireSession{Case: k, Algo: cs.a.String(), Q: cs.q, MLens: mlens, Start: 0, Desc: desc + " (writer side)", Bytes: stream.Len(),
+				Events: []wireEvent{{E: "err", Msg: "writing: " + werr.Error(), Off: -1, Emit: -1}}})
+			continue
+		}
 		sbytes := stream.Bytes()
 		if mlens == nil {
 			mlens = []int{}
